@@ -306,6 +306,7 @@ C10_Step(s, e) ==
                /\ p.hash = r.tmpl /\ p.hash = r.gen /\ p.hash = r.hashAnn
                /\ p.tol
                /\ HasNode(s, w.node) => p.res \in ExpectedRes(s, d, w.node)
+               /\ HasNode(s, w.node) => p.res2 = (IF NodeOf(s, w.node).override2 \in {"r1", "r2", "r3"} THEN NodeOf(s, w.node).override2 ELSE "tmpl")
         \* stability: a pod that is up to date for unchanged inputs is never replaced
         /\ \A w \in UpdDeletes(s, e, d, r, role) :
              LET p == PodOf(s, w.id) IN
@@ -434,6 +435,8 @@ C14_EDS(s, e) ==
              /\ d2.upToDate  = (IF cact THEN u.current ELSE cur.current)
              /\ d.strat.canary =>
                   /\ d2.state = StateFn(d2, cact, failed, paused)
+                  /\ (cact /\ paused) => d2.reason # ""
+                  /\ ~(cact /\ paused) => d2.reason = ""
                   /\ d2.hasCanary = cact
                   /\ cact => d2.canaryRS = u.id
                   /\ d2.condFailed.true = failed
@@ -460,7 +463,8 @@ C15_Wants(s, d, active, canary) ==
 C15_Step(s, e) ==
     (IsEDS(s, e) /\ HasEDS(e.state, e.key)) =>
       LET d == EDSOf(s, e.key)  d2 == EDSOf(e.state, e.key) IN
-        /\ (d.strat.canary /\ d2.hasCanary /\ HasRS(s, d2.canaryRS) /\ ~d.strat.cReplicas.bad) =>
+        \* (a reconcile that only defaults the object, or only creates the replica set, does not evaluate the canary)
+        /\ (d.defaulted /\ Cardinality(UpToDateRS(s, d)) = 1 /\ d.strat.canary /\ d2.hasCanary /\ HasRS(s, d2.canaryRS) /\ ~d.strat.cReplicas.bad) =>
               LET u     == RSOf(s, d2.canaryRS)
                   old   == CNodes(d)
                   new   == CNodes(d2)
@@ -475,6 +479,22 @@ C15_Step(s, e) ==
                  /\ \/ e.res.err
                     \/ Cardinality(new) \in wants
                     \/ Masked("F-stale-nodes", "C15", Cardinality(new) = Cardinality(old) /\ \E n \in old : ~Valid(n))
+                 \* additions spread over the values of the anti-affinity keys: no value that receives a new node ends up with
+                 \* more than ceil(wanted / number of values among the selectable nodes)
+                 /\ (d.strat.cAntiAffinity /\ new \ old # {}) =>
+                      LET Sel    == { n \in NodeNames(s) : d.strat.cSelector => NodeOf(s, n).csel }
+                          zones  == { NodeOf(s, n).zone : n \in Sel }
+                          want   == CHOOSE w \in wants : \A w2 \in wants : w >= w2
+                          quota  == (want + Cardinality(zones) - 1) \div Cardinality(zones)
+                      IN \A n \in new \ old :
+                           /\ NT(<<"C15", "spread", quota>>)
+                           /\ Cardinality({ m \in new : HasNode(s, m) /\ NodeOf(s, m).zone = NodeOf(s, n).zone }) <= quota
+                 \* additions prefer the nodes whose daemon pods restarted least (stated without anti-affinity, where the
+                 \* preference is not constrained by the quota)
+                 /\ (~d.strat.cAntiAffinity /\ new \ old # {}) =>
+                      LET R(n) == SumOver({ p \in OwnPods(s, d) : p.node = n /\ p.sched }, LAMBDA p : p.restarts) IN
+                        \A n \in new \ old : \A m \in NodeNames(s) \ new :
+                           (Valid(m) /\ m \notin old) => (NT(<<"C15", "restarts", R(n), R(m)>>) /\ R(n) <= R(m))
         \* "not enough nodes" is reported only when it is true
         /\ (e.res.errKind = "nodes" /\ d.strat.canary /\ Cardinality(UpToDateRS(s, d)) = 1 /\ ~d.strat.cReplicas.bad) =>
               LET u == CHOOSE x \in UpToDateRS(s, d) : TRUE
